@@ -1284,6 +1284,97 @@ Proof.
 Qed.
 
 (* ------------------------------------------------------------------ *)
+(* Persist                                                             *)
+
+Lemma lr_append_ok lr sp : SI sp ->
+  lr_marker lr = sp_mi sp -> 1 <= lr_len lr -> sp_saved sp <= lr_last lr ->
+  (sp_saved sp = sp_last sp -> lr_last lr = sp_last sp) ->
+  exists lr2, lr_append lr (sp_to_save sp) = Ok lr2 /\ lr_marker lr2 = sp_mi sp /\ lr_mterm lr2 = lr_mterm lr
+     /\ lr_ssidx lr2 = lr_ssidx lr /\ 1 <= lr_len lr2 /\ lr_last lr2 = sp_last sp.
+Proof.
+  intros HS Hm Hl Hc He. destruct (to_save_facts sp HS) as (SL & SN & SF).
+  pose proof (si_mp _ HS). pose proof (si_ps _ HS). pose proof (si_sl _ HS).
+  destruct (sp_to_save sp) as [|s0 S'] eqn:Es.
+  - rewrite nlen_nil in SN. exists lr. cbn [lr_append]. repeat split; auto. apply He. lia.
+  - rewrite <- Es in *. destruct SF as (F1 & _ & _); [congruence|].
+    assert (H0i : e_index s0 = sp_saved sp + 1) by (rewrite Es in SL; apply (log_ok_hd _ _ _ SL)).
+    assert (HN : 1 <= nlen (sp_to_save sp)) by (rewrite Es, nlen_cons; lia).
+    unfold lr_append. rewrite Es. rewrite <- Es. rewrite H0i, F1.
+    destruct (negb (sp_saved sp + 1 + nlen (sp_to_save sp) - 1 =? sp_last sp)) eqn:E0; [lia|].
+    unfold lr_set_range, lr_first, lr_last in *. rewrite Hm in *.
+    destruct (nlen (sp_to_save sp) =? 0) eqn:E1; [lia|].
+    destruct (sp_saved sp + 1 + nlen (sp_to_save sp) - 1 <? sp_mi sp + 1) eqn:E2; [lia|].
+    destruct (sp_saved sp + 1 <? sp_mi sp + 1) eqn:E3; [lia|].
+    destruct (sp_saved sp + 1 - sp_mi sp <? lr_len lr) eqn:E4.
+    + eexists; split; [reflexivity|]. cbn [lr_marker lr_mterm lr_len lr_ssidx]. repeat split; auto; lia.
+    + destruct (lr_len lr =? sp_saved sp + 1 - sp_mi sp) eqn:E5; [|lia].
+      eexists; split; [reflexivity|]. cbn [lr_marker lr_mterm lr_len lr_ssidx]. repeat split; auto; lia.
+Qed.
+
+Lemma step_persist w sp : R w sp -> wf_op sp OPersist = true ->
+  exists w', step w OPersist = Ok w' /\ R w' (sp_persist sp) /\ w_limit w' = w_limit w.
+Proof.
+  intros HR Hwf. cbn [wf_op] in Hwf. apply andb_true_iff in Hwf as [Hidle Hnp].
+  unfold idle in Hidle. destruct (sp_pend sp) as [p|] eqn:Ep; [|discriminate]. clear Hidle.
+  assert (Hpers : sp_persisted sp = false) by (destruct (sp_persisted sp); [discriminate|reflexivity]). clear Hnp.
+  pose proof (r_si _ _ HR) as HS.
+  pose proof (si_mp _ HS). pose proof (si_pc _ HS). pose proof (si_cl _ HS). pose proof (si_ps _ HS). pose proof (si_sl _ HS).
+  pose proof (r_q _ _ HR) as Q. rewrite Ep, Hpers in Q. destruct Q as (ud & Hq & Hud).
+  pose proof Hud as Hud0. destruct Hud0 as (U1 & _ & _ & _ & _ & _ & _ & U8).
+  assert (Hcov : cover sp = sp_saved sp) by (unfold cover; rewrite Hpers; reflexivity).
+  (* the reader after the snapshot (if any) has been applied *)
+  assert (HL1 : exists lr1,
+     (match ud_snap ud with
+      | Some (i, t) => match lr_apply_snapshot (w_lr w) i t with Ok l => l | _ => w_lr w end
+      | None => w_lr w end) = lr1 /\
+     lr_marker lr1 = sp_mi sp /\ lr_mterm lr1 = sp_mt sp /\ 1 <= lr_len lr1 /\ sp_saved sp <= lr_last lr1 /\
+     (sp_saved sp = sp_last sp -> lr_last lr1 = sp_last sp) /\ lr_ssidx lr1 <= sp_mi sp).
+  { rewrite U8. destruct (sp_snap sp) eqn:Es.
+    - destruct (si_snap _ HS Es) as (X1 & X2).
+      destruct (r_ss _ _ HR) as (_ & S2). specialize (S2 ltac:(unfold rd_ok; rewrite Es, Hpers; reflexivity)).
+      unfold lr_apply_snapshot. destruct (sp_mi sp <=? lr_ssidx (w_lr w)) eqn:E; [lia|].
+      eexists; split; [reflexivity|]. unfold lr_last. cbn [lr_marker lr_mterm lr_len lr_ssidx]. repeat split; lia.
+    - destruct (r_lr _ _ HR) as (A & B & C & D & E); [unfold rd_ok; rewrite Es; reflexivity|].
+      rewrite Hcov in *. eexists; split; [reflexivity|]. repeat split; auto. apply (r_ss _ _ HR). }
+  destruct HL1 as (lr1 & El1 & A1 & A2 & A3 & A4 & A5 & A6).
+  destruct (lr_append_ok lr1 sp HS A1 A3 A4 A5) as (lr2 & Hap & B1 & B2 & B3 & B4 & B5).
+  cbn [step]. unfold w_persist. rewrite Hq. cbn [persist_first p_persisted p_ud]. unfold persist_update.
+  rewrite El1, U1, Hap. cbn [bind].
+  eexists; split; [reflexivity|]. split; [|reflexivity].
+  destruct (to_save_facts sp HS) as (SL & SN & SF).
+  unfold sp_persist. rewrite Ep.
+  constructor; cbn [w_el w_lr w_st w_queue sp_mi sp_mt sp_ents sp_committed sp_processed sp_saved sp_snap sp_pend sp_persisted].
+  - destruct HS. constructor; cbn [sp_mi sp_mt sp_ents sp_committed sp_processed sp_saved sp_snap sp_pend sp_persisted]; auto. intros _. congruence.
+  - apply (r_c _ _ HR).
+  - apply (r_p _ _ HR).
+  - apply (r_s _ _ HR).
+  - apply (r_m2 _ _ HR).
+  - apply (r_w1 _ _ HR).
+  - apply (r_w2 _ _ HR).
+  - apply (r_w3 _ _ HR).
+  - apply (r_w4 _ _ HR).
+  - apply (r_snapm _ _ HR).
+  - apply (r_snap _ _ HR).
+  - apply (r_a1 _ _ HR).
+  - apply (r_a2 _ _ HR).
+  - intros _. unfold cover, sp_last. cbn [sp_persisted sp_mi sp_ents]. fold (sp_last sp).
+    rewrite B1, B2, A2, B5. repeat split; auto; lia.
+  - unfold cover, sp_last, sp_get. cbn [sp_persisted sp_mi sp_ents]. fold (sp_last sp). fold (sp_get sp).
+    intros i Hi1 Hi2. destruct (sp_to_save sp) as [|s0 S'] eqn:Es.
+    + rewrite nlen_nil in SN. cbn [st_save]. apply (r_st _ _ HR); auto. rewrite Hcov. lia.
+    + rewrite <- Es in *. rewrite (st_save_get _ (sp_saved sp + 1)) by (auto; congruence).
+      destruct ((sp_saved sp + 1 <=? i) && (i <? sp_saved sp + 1 + nlen (sp_to_save sp))) eqn:E.
+      * unfold sp_to_save. rewrite nth_error_skipn. unfold sp_get. destruct (i <=? sp_mi sp) eqn:E2; [lia|]. f_equal. lia.
+      * apply (r_st _ _ HR); auto. rewrite Hcov. lia.
+  - unfold cover, sp_last. cbn [sp_persisted sp_mi sp_ents]. fold (sp_last sp). intros Hlt.
+    destruct (sp_to_save sp) as [|s0 S'] eqn:Es.
+    + rewrite nlen_nil in SN. cbn [st_save]. pose proof (r_stmax _ _ HR) as X. rewrite Hcov in X. assert (sp_saved sp = sp_last sp) by lia. lia.
+    + rewrite <- Es in *. destruct SF as (F1 & _); [congruence|]. unfold st_save. rewrite Es. rewrite <- Es. cbn [st_max]. lia.
+  - rewrite B3. split; [exact A6|]. unfold rd_ok. cbn [sp_persisted sp_snap]. rewrite orb_true_r. discriminate.
+  - eexists; split; [reflexivity|]. exact Hud.
+Qed.
+
+(* ------------------------------------------------------------------ *)
 (* induction over operation sequences                                  *)
 
 (* the operations whose preservation of R is proved here; for the others
